@@ -117,6 +117,31 @@ fn run_floats<T: Flt>(rep: &Report, cli: &Cli) {
             fmts.push((f, 0));
         }
     }
+    // breaks at the limits of the option type: the bound cannot be exercised with a real buffer,
+    // but it must at least cover the zeros the writer is then obliged to produce
+    {
+        use core::num::NonZeroI32;
+        let fmt = standard::<T>();
+        let mut c = Ck { rep, fam: Fam::new(rep, &format!("C09:{}:LIMIT", T::NAME)), g: Guarded::new(64), slot: 0 };
+        for (name, nb, pb) in [("neg=i32::MIN", NonZeroI32::new(i32::MIN), None), ("neg=-2^31+1", NonZeroI32::new(i32::MIN + 1), None), ("pos=i32::MAX", None, NonZeroI32::new(i32::MAX))] {
+            c.fam.states += 1;
+            c.fam.cases += 1;
+            c.fam.calls += 1;
+            c.fam.nontrivial += 1;
+            let o = match WriteFloatOptions::builder().negative_exponent_break(nb).positive_exponent_break(pb).build() {
+                Ok(o) => o,
+                Err(_) => continue, // rejected by validation: nothing to bound
+            };
+            let need: u64 = nb.map_or(0, |x| x.get().unsigned_abs() as u64).max(pb.map_or(0, |x| x.get().unsigned_abs() as u64));
+            let key = format!("{}|STANDARD|limit-break|{}", T::NAME, name);
+            match guarded(|| (fmt.bufsize)(&o)) {
+                Err(p) => rep.violation(key, format!("C09 buffer_size_const with exponent break {} (options accepted by build()) panicked: {}", name, p)),
+                Ok(b) if (b as u64) < need => rep.violation(key, format!("C09 buffer_size_const = {} with exponent break {}: the writer must produce up to {} zeros before leaving positional notation", b, name, need)),
+                Ok(_) => {}
+            }
+        }
+        c.done();
+    }
     let vals = float_values::<T>(if thorough { 2 } else { 1 });
     for (fmt, level) in fmts {
         let opts = wopts(level, fmt.exp_char());
